@@ -20,7 +20,7 @@ RULE = ("random DAGs (<= 7 providers, depth <= 4, fan-out <= 3, shared sub-depen
         "fingerprint = canonical DAG + overrides + failure + converter; trivial = graphs without any edge")
 ASSUMPTIONS = ["in-memory broker; virtual time; sync providers run through an inline executor (the asyncify wrapper is kept)"]
 EVAL_COUNTER = "invocations_judged"
-REQUIRED = ["invocations_judged", "graphs_with_shared_subdeps", "overrides_applied", "provider_failures", "declaration_rejections", "msg_leaves", "concurrent_twins", "fresh_executions", "same_function_depends_runs"]
+REQUIRED = ["invocations_judged", "graphs_with_shared_subdeps", "overrides_applied", "provider_failures", "declaration_rejections", "msg_leaves", "concurrent_twins", "fresh_executions", "same_function_depends_runs", "shadowing_payload_jobs"]
 CASE_TIMEOUT = 120
 
 
@@ -29,6 +29,8 @@ def gen_cases(tier, seed):
     n = {"quick": 64, "thorough": 800}[tier]
     cases = [{"type": "graphs", "seed": rnd.randrange(10**6), "conv": rnd.choice(["basic", "pydantic"]), "n": 6} for _ in range(n)]
     cases.append({"type": "declarations", "seed": 0})
+    for i, conv in enumerate(["basic", "pydantic"]):
+        cases.append({"type": "shadow", "seed": rnd.randrange(10**6), "conv": conv})
     for i in range({"quick": 6, "thorough": 36}[tier]):
         cases.append({"type": "twice", "seed": rnd.randrange(10**6), "conv": ["basic", "pydantic"][i % 2], "async": i % 3 == 0, "which": i % 3, "nested": i % 2 == 1})
     for i in range({"quick": 8, "thorough": 48}[tier]):
@@ -232,6 +234,45 @@ def declarations(out, stats, fps):
     _d(out, stats, fps, V)
 
 
+async def shadow_scenario(loop, case, out, stats, fps):
+    """Payload keys that carry the NAME of a dependency parameter (x0, m): whatever the worker does with such a message,
+    an invocation that does happen has its providers' values in those parameters."""
+    from repid import Job
+    from rv.actors import register_shadow_actors
+    from rv.wl import World, run_worker
+
+    w = World(loop, "mem", converter=case["conv"], seed=case["seed"])
+    try:
+        await w.open()
+        r = w.router(retry_policy=lambda retry_number=1: timedelta(seconds=0.1))
+        seen = []
+        register_shadow_actors(r, seen, with_kwargs=case["conv"] == "basic")
+        await w.conn.message_broker.queue_declare("default")
+        payloads = [{"a": 1}, {"a": 1, "x0": "from-payload"}, {"a": 1, "m": "from-payload"}, {"a": 1, "x0": ["from-payload"], "m": {"k": 1}, "zz": 3}]
+        n = 0
+        for name in ("shadowed", "shadowed_plain"):
+            if name == "shadowed" and case["conv"] == "pydantic":
+                continue  # (**kwargs actors are BasicConverter territory)
+            for pl in payloads:
+                await Job(name, id_=f"s{n}", args=pl, args_id=f"args-s{n}", retries=0, store_result=False, _connection=w.conn).enqueue()
+                n += 1
+        worker = w.worker([r], tasks_limit=3, graceful_shutdown_time=3.0, handle_signals=[__import__("signal").SIGUSR1])
+        done = lambda: len({e["id"] for e in w.log.events if e.get("k") == "call" and e.get("depth") == 0 and e.get("op") in ("ack", "nack")}) >= n  # noqa: E731
+        info = await run_worker(w, worker, until=done, horizon=10.0, poll=0.1)
+        if info["exc"] is not None or not info["returned"]:
+            out.append(V("worker_died", "shadow", f"{info}"))
+        fps.add(f"shadow/{case['conv']}")
+        stats["shadowing_payload_jobs"] += n
+        if not any(rc["extra"] == {} and rc["x0"] == ("provided", ()) for rc in seen):
+            out.append(V("missing_invocation", "shadow", f"not even the plain payload ran: {seen[:2]}"))
+        for rc in seen:
+            stats["invocations_judged"] += 1
+            if normalize(rc["x0"]) != ("provided", ()) or not rc["m_is_handle"]:
+                out.append(V("value_mismatch", f"{case['conv']}/payload-key-named-like-a-dependency", f"{rc['id']}: the actor ran with x0={rc['x0']!r}, m is a message handle: {rc['m_is_handle']} (its provider returns ('provided', ()))"))
+    finally:
+        await w.close()
+
+
 async def twice_scenario(loop, case, out, stats, fps):
     """Several separately constructed Depends objects wrap the SAME provider function (in one actor, in a second actor, and
     as a sub-dependency): overriding one of them replaces the provider exactly where that object is used, nowhere else."""
@@ -331,6 +372,10 @@ def run_case(case):
     out, fps, samples = [], set(), []
     if case["type"] == "declarations":
         declarations(out, stats, fps)
+    elif case["type"] == "shadow":
+        res = vl.run(lambda loop: shadow_scenario(loop, case, out, stats, fps), max_steps=4_000_000, seed=case["seed"])
+        if res.exc is not None:
+            out.append(V("harness_or_api_error", "shadow", f"{type(res.exc).__name__}: {res.exc}"))
     elif case["type"] == "twice":
         res = vl.run(lambda loop: twice_scenario(loop, case, out, stats, fps), max_steps=4_000_000, seed=case["seed"])
         if res.exc is not None:
